@@ -285,6 +285,11 @@ def run(ctx: Ctx):
 
     history.replay_worlds(ctx, 2, want=lambda clause: clause in ("scene-score", "scene-gt-count", "raised") or (clause.startswith("frame-result") and "ap" in clause.split(":")[-1].split("+")),
                           tag="ap_")
+    # engine T at manager level: the AP rows of add_frame_result on large random scenes must equal the specification's exact rationals
+    from . import pipeline_trace
+
+    ctx.extra["manager_executions_validated_as_traces"] = pipeline_trace.run(
+        ctx, n=150 if ctx.quick else 3000, want=lambda rendering, clause: clause.startswith("ap-") or clause == "raised")
     ctx.rule = (
         "TLC enumerates every ranking of length <= N over {TP(w in 0..2), FP, ignored} x every ground-truth count 0..G and checks operational = "
         "declarative AP/APH, bounds, zero/perfect cases; every (ranking, g) is realised as real object results (shuffled input order, matching modes "
